@@ -10,7 +10,41 @@ def pre_tiff(VERIF):
         h.what_extra = "translation validated on %d scenarios (byte-identical files)" % n
     return pre
 HAL = "acquire-core-libs/src/acquire-device-hal/device/hal/"
-def tiff_h(H, VERIF, name, defines, unwind, timeout=1500, solver="cadical", mem=24, unwindset=None, rec_violation=False):
+def tiff_h(H, VERIF, name, defines, unwind, timeout=1500, solver="cadical", mem=24, unwindset=None, rec_violation=False, composite=False):
+    if composite:
+        h = tiff_h(H, VERIF, name, defines + ["DEV=2"], unwind, timeout, solver, mem, unwindset, rec_violation)
+        h.pre = pre_sbs(VERIF)
+        return h
     return H(name, "harness/storage/tiff_file.c", repo=[HAL + "storage.c", HAL + "driver.c", "acquire-core-libs/src/acquire-device-properties/device/props/components.c"],
              env=[], defines=defines, pre=pre_tiff(VERIF), unwind=unwind, unwindset=unwindset or {}, solver=solver, timeout=timeout, mem_gb=mem,
              recursion_is_violation=rec_violation)
+
+SBS_WANT = ["side_by_side_tiff_init", "_ZN12_GLOBAL__N_124side_by_side_tiff_appendEP7StoragePK10VideoFramePm", "_ZN12_GLOBAL__N_122side_by_side_tiff_stopEP7Storage",
+            "_ZN12_GLOBAL__N_125side_by_side_tiff_destroyEP7Storage", "_ZN12_GLOBAL__N_126side_by_side_tiff_get_metaEPK7StorageP23StoragePropertyMetadata",
+            "_ZN12_GLOBAL__N_121side_by_side_tiff_getEPK7StorageP17StorageProperties", "_ZN12_GLOBAL__N_137side_by_side_tiff_reserve_image_shapeEP7StoragePK10ImageShape"]
+
+def sbs_step3_text(repo):
+    """normalised source text of steps 2-3 of side_by_side_tiff_start (the part the harness models by hand)"""
+    import re
+    src = open(os.path.join(repo, "acquire-driver-common/src/storage/side-by-side-tiff.cpp")).read()
+    a = src.index("// 2. write metadata.json file")
+    b = src.index("} catch", a)
+    return re.sub(r"\s+", " ", src[a:b]).strip()
+
+def pre_sbs(VERIF):
+    base = pre_tiff(VERIF)
+    def pre(h, d, runner):
+        base(h, d, runner)
+        import gen, subprocess
+        repo = os.environ.get("VERIF_REPO", "/repo")
+        exp = open(os.path.join(VERIF, "harness/storage/sbs_start_step3.expected")).read().strip()
+        got = sbs_step3_text(repo)
+        if got != exp:
+            raise RuntimeError("side_by_side_tiff_start (steps 2-3) differs from the text the harness models by hand; update SBS_START_STEP3 in harness/storage/tiff_file.c and sbs_start_step3.expected")
+        incs = ["-I" + os.path.join(repo, i) for i in gen.INC]
+        ll = os.path.join(d, "sbs.ll"); c = os.path.join(d, "sbs_gen.c")
+        gen.sh(["clang++-14", "-std=gnu++20", "-O1", "-fno-vectorize", "-fno-slp-vectorize", "-fno-unroll-loops", "-DNDEBUG"] + incs +
+               ["-S", "-emit-llvm", "-o", ll, os.path.join(repo, "acquire-driver-common/src/storage/side-by-side-tiff.cpp")])
+        gen.sh([sys.executable, os.path.join(VERIF, "ir2c", "ir2c.py"), ll, c] + SBS_WANT)
+        h.generated = h.generated + ["sbs_gen.c"]
+    return pre
